@@ -231,6 +231,7 @@ func runJournal(c *Case, out *RunOut) {
 		viol("format", fmt.Sprintf("independent decoder found %d of %d records in the intact journal", len(span), len(orig)))
 		return
 	}
+	byteDamage := false
 	check := func(what string, d []byte, strict bool, damaged map[int]bool, anyDamage bool) bool {
 		recs, err, pan := readJournal(d, strict)
 		if pan != "" {
@@ -298,6 +299,29 @@ func runJournal(c *Case, out *RunOut) {
 			}
 			viol("lost", fmt.Sprintf("%s: a record that touches no damaged block was not yielded", what))
 			return false
+		}
+		if strict && byteDamage && err == nil {
+			// damage that breaks the framing must stop a strict reader; it may
+			// only go unreported if the stream still decodes completely
+			// (damage in block padding)
+			dr, _, clean := decode.Journal(d)
+			full := clean && len(dr) == len(span)
+			if full {
+				i := 0
+				for oi := range orig {
+					if _, ok := span[oi]; ok {
+						if !bytes.Equal(dr[i].Data, orig[oi]) {
+							full = false
+							break
+						}
+						i++
+					}
+				}
+			}
+			if !full {
+				viol("strict-silent", fmt.Sprintf("%s: the framing is broken but the strict reader ended without a corruption error (yielded %d records)", what, len(recs)))
+				return false
+			}
 		}
 		if strict {
 			if err == nil && anyDamage {
@@ -407,6 +431,36 @@ func runJournal(c *Case, out *RunOut) {
 		out.Fired["truncate/journal"]++
 	}
 	// (c) byte damage
+	byteDamage = true
+	// every byte of the first chunk headers (checksum, length, type)
+	{
+		var hdrs []int
+		for _, sp := range span {
+			hdrs = append(hdrs, sp[0])
+			for b := (sp[0]/decode.BlockSize + 1) * decode.BlockSize; b < sp[1]; b += decode.BlockSize {
+				hdrs = append(hdrs, b) // continuation chunk at the block start
+			}
+		}
+		sort.Ints(hdrs)
+		if len(hdrs) > 12 {
+			hdrs = hdrs[:12]
+		}
+		for _, h := range hdrs {
+			for off := 0; off < 7 && h+off < len(data); off++ {
+				for _, mask := range []byte{0x80, 0x01} {
+					d := append([]byte(nil), data...)
+					d[h+off] ^= mask
+					dm := touch(h+off, h+off+1)
+					what := fmt.Sprintf("chunk header byte %d of the chunk at %d altered", off, h)
+					if !check(what, d, false, dm, true) || !check(what, d, true, dm, true) {
+						return
+					}
+					out.OpsDone++
+					out.Fired["bitrot-header/journal"]++
+				}
+			}
+		}
+	}
 	n := cc.Budget
 	if cc.All && len(data) <= 16384 {
 		n = len(data)
